@@ -33,10 +33,10 @@ def expected(kind, pos, joins, ds, uh, filt):
     return "NotImplementedError"
 
 
-def build(h, cls, pos, joins):
-    a = h.vertex("a")
-    b = a if (pos == "both" and joins) else h.vertex("b")
-    other = a if pos == "both" else (b if joins else h.vertex("c"))
+def build(h, cls, pos, joins, vcls="Vertex"):
+    a = h.vertex("a", vcls)
+    b = a if (pos == "both" and joins) else h.vertex("b", vcls)
+    other = a if pos == "both" else (b if joins else h.vertex("c", vcls))
     ends = {"v1": [a, other], "v2": [other, a], "both": [a, a]}[pos]
     l = h.link("L", cls, ends)
     a.fields["_links"] = Seq([l], "list")
@@ -87,11 +87,14 @@ def run(ctx):
     C = c04.consts(h)
     res.analysed = common.analysed(ctx, [FN, c04.FN, "edgegraph.builder.explicit.unlink"])
     derived = {}
-    for cls, pos, joins, ds, uh, filt in itertools.product(KINDS, POS, (True, False), (True, False), UHS, FILTERS):
+    rows_ = [r + ("Vertex",) for r in itertools.product(KINDS, POS, (True, False), (True, False), UHS, FILTERS)]
+    # the same table on distinct vertices that compare equal (a user vertex class with value equality): "the links whose two ends are a and b"
+    rows_ += [r + ("EqVert",) for r in itertools.product(("DirectedEdge", "UnDirectedEdge", "SymTwo"), POS, (True, False), (True, False), UHS, ("none", "accept"))]
+    for cls, pos, joins, ds, uh, filt, vcls in rows_:
         kind = KINDS[cls]
         exp = expected(kind, pos, joins, ds, uh, filt)
         h.reset()
-        a, b, l = build(h, cls, pos, joins)
+        a, b, l = build(h, cls, pos, joins, vcls)
         try:
             cb = c04.mkfilter(filt, h=h)
             out = h.call(fn, a, b, ds, C[uh], c04.cbval(cb))
@@ -100,19 +103,20 @@ def run(ctx):
             res.undecide(f"{FN} row {cls},{pos},{joins},{ds},{uh},{filt}: {u}")
             continue
         got = classify(out, l)
-        derived[(cls, pos, joins, ds, uh, filt)] = got
+        if vcls == "Vertex":
+            derived[(cls, pos, joins, ds, uh, filt)] = got
         ok = got in exp if isinstance(exp, set) else got == exp
         if ok and cb is not None:
             for args, kw in cb.calls:
                 if not (len(args) == 1 and not kw and args[0] is l):
                     ok, got = False, f"filter called with {show(Seq(args))} {kw}"
-        res.ob(ok, sig=(cls, pos, joins, ds, uh, filt),
+        res.ob(ok, sig=(cls, pos, joins, ds, uh, filt, vcls),
                sample={"link": cls, "a_is": pos, "other_end_is_b": joins, "direction_sensitive": ds, "unknown": uh, "filter": filt, "derived": got, "specified": sorted(exp) if isinstance(exp, set) else exp})
         if not ok:
-            res.violation("TABLE", FN, f"kind={kind},joins={joins},sensitive={ds},unknown={uh},filter={filt}",
-                          f"find_links() gives {got!r} for a {kind}-kind link where the statement requires {exp!r}",
+            res.violation("TABLE", FN, f"kind={kind},joins={joins},sensitive={ds},unknown={uh},filter={filt}" + (",vertices-compare-equal" if vcls != "Vertex" else ""),
+                          f"find_links() gives {got!r} for a {kind}-kind link where the statement requires {exp!r}" + (" (a, b and the third vertex are distinct objects of a class with value equality)" if vcls != "Vertex" else ""),
                           detail=f"link class {cls}, a is {pos}; filter calls {cb.calls if cb else None}", replay=replay(cls, pos, joins, ds, uh, filt))
-    res.rule("TABLE", len(derived))
+    res.rule("TABLE", len(rows_))
     # ---- relational check against the derived neighbors() table
     nrel = 0
     for (cls, pos, joins, ds, uh, filt), got in derived.items():
@@ -138,10 +142,13 @@ def run(ctx):
     rows = [(c, p_) for c in ("DirectedEdge", "UnDirectedEdge", "SymTwo") for p_ in ("v1", "v2")]
     ncomp = 0
     for r1, r2 in itertools.product(rows, rows):
-        for ds, uh, filt in itertools.product((True, False), UHS[:2], ("none", "selective")):
+        for ds, uh, filt in itertools.product((True, False), UHS[:2], ("none", "selective", "none/equal-vertices")):
+            vcls = "Vertex"
+            if filt.endswith("/equal-vertices"):
+                filt, vcls = "none", "EqVert"
             try:
                 h.reset()
-                a, b, c = h.vertex("a"), h.vertex("b"), h.vertex("c")
+                a, b, c = h.vertex("a", vcls), h.vertex("b", vcls), h.vertex("c", vcls)
                 ls = []
                 for i, (cls, pos) in enumerate((r1, r2)):
                     ls.append(h.link(f"L{i}", cls, [a, b] if pos == "v1" else [b, a]))
@@ -172,20 +179,41 @@ def run(ctx):
                 cnt = sum(1 for x in nbo.value.items if x is b)
                 if cnt != len(want):
                     ok, why = False, f"size {len(want)} but b occurs {cnt} time(s) in neighbors(a) under the corresponding settings"
-            res.ob(ok, sig=("multi", r1, r2, ds, uh, filt))
+            res.ob(ok, sig=("multi", r1, r2, ds, uh, filt, vcls))
             if not ok:
-                res.violation("COMPOSE", FN, f"kinds={KINDS[r1[0]]}+{KINDS[r2[0]]},sensitive={ds},unknown={uh},filter={filt}", f"two links {r1},{r2} between a and b plus an unrelated a->c: {why}")
+                res.violation("COMPOSE", FN, f"kinds={KINDS[r1[0]]}+{KINDS[r2[0]]},sensitive={ds},unknown={uh},filter={filt}" + (",vertices-compare-equal" if vcls != "Vertex" else ""),
+                              f"two links {r1},{r2} between a and b plus an unrelated a->c" + (" (distinct vertices of a class with value equality)" if vcls != "Vertex" else "") + f": {why}")
     res.rule("COMPOSE", ncomp)
+    # ---- the size relation along a history of queries with throw-away filters and caching on (a dropped filter's address is re-used)
+    from rules import c05
+    try:
+        h5 = H(ctx.src, ["edgegraph.traversal.helpers"])
+        got, a5, others5, links5, f2 = c05.lifetime_scenario(h5, True)
+        fl5 = h5.fn(FN)
+        for i, b5 in enumerate(others5):
+            sel = Callback("filterfunc", lambda I, n_, a_, k_, _f2=f2, _b=b5: bool(h5.I.truth(h5.I.call(_f2, [a_[0], _b], {}))))
+            fo = h5.call(fl5, a5, b5, False, c04.consts(h5)["NEIGHBOR"], sel)
+            cnt = got.count(b5.name) if isinstance(got, list) else None
+            ok = fo.kind == "return" and cnt is not None and len(fo.value.items) == cnt
+            res.ob(ok, sig=("lifetime", i))
+            if not ok:
+                res.violation("RELATION-LIFETIME", FN, "caching-on,second-filter-allocated-where-the-first-one-lived",
+                              f"caching on; neighbors(a, ANY, NEIGHBOR, f1) with a throw-away filter, then neighbors(a, ANY, NEIGHBOR, f2) with a new filter allocated at the dropped one's address lists "
+                              f"{b5.name} {cnt} time(s) ({got}), but find_links(a, {b5.name}) under the corresponding settings and filter finds {len(fo.value.items) if fo.kind == 'return' else fo!r} link(s)")
+        res.rule("RELATION-LIFETIME", len(others5))
+    except Unknown as u:
+        res.undecide(f"RELATION-LIFETIME: {u}")
     # ---- unlink: afterwards find_links(a, b, *) is empty for every setting; other pairs still found
     unlink = h.fn("edgegraph.builder.explicit.unlink")
     nun = 0
     pairs = [((c,), p) for c in KINDS for p in (("v1",), ("v2",), ("both",))] + [(("DirectedEdge", "UnDirectedEdge"), ("v1", "v2")), (("SymTwo", "DirectedEdge"), ("v2", "v2"))]
-    for classes, poss in pairs:
+    pairs = [(c_, p_, "Vertex") for c_, p_ in pairs] + [(("DirectedEdge",), ("v1",), "EqVert"), (("UnDirectedEdge",), ("v2",), "EqVert"), (("SymTwo", "DirectedEdge"), ("v2", "v2"), "EqVert")]
+    for classes, poss, vcls in pairs:
         def thunk():
-            a = h.vertex("a")
+            a = h.vertex("a", vcls)
             selfloop = poss[0] == "both"
-            b = a if selfloop else h.vertex("b")
-            c = h.vertex("c")
+            b = a if selfloop else h.vertex("b", vcls)
+            c = h.vertex("c", vcls)
             ls = []
             for i, (cls, pos) in enumerate(zip(classes, poss)):
                 ends = {"v1": [a, b], "v2": [b, a], "both": [a, a]}[pos]
@@ -217,14 +245,17 @@ def run(ctx):
                         good = coll and not r.value.items
                     if not good:
                         ok, why = False, f"after unlink(a, b): find_links{key} -> {r!r}"
-                res.ob(ok, sig=("unlink", classes, poss, tuple(choices)))
+                res.ob(ok, sig=("unlink", classes, poss, tuple(choices), vcls))
                 if not ok:
-                    res.violation("UNLINK-EMPTY", "edgegraph.builder.explicit.unlink", f"links={'+'.join(KINDS[c] for c in classes)},a_is={'+'.join(poss)}", why)
+                    res.violation("UNLINK-EMPTY", "edgegraph.builder.explicit.unlink", f"links={'+'.join(KINDS[c] for c in classes)},a_is={'+'.join(poss)}" + (",vertices-compare-equal" if vcls != "Vertex" else ""), why)
         except Unknown as u:
             res.undecide(f"unlink post-state {classes},{poss}: {u}")
     res.rule("UNLINK-EMPTY", nun)
     from rules import structural
     structural.filter_mpt(ctx, FN)
+    from rules import hist
+    hist.run(ctx, res, 'C09')       # composition: histories through the public API against the reference model (rules/hist.py)
+    common.vacuity(res, "HISTORY", 9000)
     common.vacuity(res, "TABLE", 900)
     common.vacuity(res, "RELATION", 100)
     res.explanation = ("All 540 abstract input classes of find_links() were evaluated on the current source and compared with the specified table; "
